@@ -1734,3 +1734,15 @@ fn c11_play_any_block() {
     kani::cover!(r.is_err() && t.current_block_size == Some(0), "empty block: Err");
     kani::cover!(r.is_ok() && fresh && left >= 2, "first block of a fresh tape");
 }
+
+// ---- lead helpers ---------------------------------------------------------------------------------
+
+/// A loaded, stopped tape whose EAR level is `level` (for the port-read harness of C07).
+pub(crate) fn stopped_tape_with_level(level: bool) -> Tap<crate::host::BufferCursor<crate::verif_hooks::VBuf>> {
+    let mut t = match Tap::from_asset(crate::host::BufferCursor::new(crate::verif_hooks::VBuf { data: [0; 24], len: 0 })) {
+        Ok(t) => t,
+        Err(_) => unreachable!(),
+    };
+    t.curr_bit = level;
+    t
+}
